@@ -213,6 +213,8 @@ def real_load(d):
             m = BaseModel.load(copy.deepcopy(d))
         return "ok", m
     except Exception as e:  # noqa
+        if isinstance(e, ValueError) and "Can not reset the variable" in str(e):
+            return "err", "unmodelled:duplicate-observation-variable"
         return "err", type(e).__name__
 
 
@@ -722,6 +724,11 @@ def _check(run: Run, thorough: bool, version: str, tmp: Path):
         # --- T2: load of the image and of hand edits
         for tag, d in [("image", payload)] + mutations(run, payload, idx):
             k2, r2 = real_load(d)
+            if k2 == "err" and r2.startswith("unmodelled:"):
+                # JointModel configured with two observation models named "y" (construction-time ValueError of the DAG):
+                # outside the model, see docs/C12.md
+                run.count("skipped", r2)
+                continue
             try:
                 if k2 == "ok":
                     if any(v.dtype != torch.float32 for v in r2.parameters.values()):
